@@ -114,6 +114,9 @@ func NewFieldsFromKVString(kvs string) (Fields, error) {
 			if err != nil {
 				return "", errors.Wrapf(err, "wrong value %s, seems quotated, but could not unqote it", v1)
 			}
+			if len(v) > 255 {
+				return "", errors.Errorf("field name or value cannot exceed 255 bytes.")
+			}
 		}
 
 		sb.WriteByte(byte(len(v)))
